@@ -89,5 +89,9 @@ func driveC07(c *Ctx) error {
 			c.Out.Emit(ev)
 		}
 	}
+	// every type definition once more, after all the operations above ran on it
+	for _, e := range ts {
+		c.Out.Emit(J{"ev": "tsame", "i": e.i, "t": ProjectType(e.t)})
+	}
 	return nil
 }
